@@ -222,8 +222,12 @@ static void *verif_memcpy(void *dst, const void *src, size_t n)
 				((sqfs_u8 *)dst)[i] = ((sqfs_u8 *)src)[i];
 		}
 	} else {
-		if (g_k < n)
-			((sqfs_u8 *)dst)[g_k] = ((sqfs_u8 *)src)[g_k];
+		if (g_k < n) {
+			sqfs_u8 *d = dst;
+			sqfs_u8 *s = (sqfs_u8 *)src;
+			sqfs_u8 v = s[g_k];
+			d[g_k] = v;
+		}
 	}
 	return dst;
 #endif
@@ -245,8 +249,10 @@ static void *verif_memset(void *dst, int c, size_t n)
 				((sqfs_u8 *)dst)[i] = (sqfs_u8)c;
 		}
 	} else {
-		if (g_k < n)
-			((sqfs_u8 *)dst)[g_k] = (sqfs_u8)c;
+		if (g_k < n) {
+			sqfs_u8 *d = dst;
+			d[g_k] = (sqfs_u8)c;
+		}
 	}
 	return dst;
 #endif
